@@ -1,26 +1,16 @@
-"""Predicate of the open C27 finding (input class of proposed_fixes/C27-1.diff)."""
+"""Predicates of the open C27 findings (C27-F1 was fixed by commit 07f5409 = proposed_fixes/C27-1.diff)."""
 from harness.common import known_predicate
 
 
-def _within_before_own_file(meta, order):
-    pos = {f: k for k, f in enumerate(order)}
-    for i in order:
-        w = meta[i]["within"]
-        for n in range(1, len(w) + 1):
-            for j in order:
-                if j != i and w[:n] in meta[j]["defines"] and pos[j] > pos[i]:
-                    return True
-    return False
-
-
 @known_predicate
-def c27_within_before_package(case, what):
-    """A file with `within P…;` is merged before the file that defines the content-carrying package P
-    (or an enclosing one): P keeps the placeholder's empty content, so classes lose P's constants."""
+def c27_flatten_of_enclosing_class_sees_sibling_order(case, what):
+    """The class whose flat model differs is one that contains nested classes, and one of the classes nested in it
+    does not flatten on its own even in the unsplit library (tree.flatten then succeeds or fails for the enclosing
+    class depending on the dictionary order of the nested classes); no `within` file shadows a package here."""
     if what not in ("flattened model differs from the unsplit library's for this file order",
-                    "merged tree differs from the unsplit library's (class path -> class content)"):
+                    "flattened model differs between two file orders"):
         return False
-    meta, order = case.get("meta"), case.get("order")
-    if not meta or order is None or not case.get("shadowed"):
+    cls = case.get("cls")
+    if not cls or case.get("shadowed"):
         return False
-    return _within_before_own_file(meta, order)
+    return any(r.startswith(cls + ".") for r in case.get("ref_raises", []))
